@@ -138,7 +138,8 @@ where
             .unwrap_or_else(|| Box::new(StdRng::from_os_rng()));
         let start_time = Instant::now();
         loop {
-            if start_time.elapsed().as_secs_f64() > self.timeout {
+            // (written so that a NaN build time ends the construction instead of never ending it)
+            if !(start_time.elapsed().as_secs_f64() <= self.timeout) {
                 break;
             }
 
